@@ -16,7 +16,7 @@ use crate::core::io::network::Network;
 use crate::core::io::storage::Storage;
 use crate::core::process::version::{read_pkg_version, Version};
 use crate::core::util::balance_snapshot::BalanceSnapshot;
-use crate::core::util::crypto::{generate_keys, hash, sign};
+use crate::core::util::crypto::{generate_keys, hash, public_key_of, sign};
 
 pub const WALLET_SIZE: usize = 65;
 
@@ -186,8 +186,16 @@ impl Wallet {
             );
             return Err(Error::from(ErrorKind::InvalidData));
         }
-        self.private_key = bytes[0..32].try_into().unwrap();
-        self.public_key = bytes[32..65].try_into().unwrap();
+        let private_key: SaitoPrivateKey = bytes[0..32].try_into().unwrap();
+        let public_key: SaitoPublicKey = bytes[32..65].try_into().unwrap();
+        if public_key_of(&private_key) != Some(public_key) {
+            // a file of the right length that does not hold a key pair (a torn write filled with zero
+            // bytes, another file): taking its bytes as keys would stop the node at the first signature
+            warn!("wallet data does not hold a key pair");
+            return Err(Error::from(ErrorKind::InvalidData));
+        }
+        self.private_key = private_key;
+        self.public_key = public_key;
         Ok(())
     }
 
